@@ -157,3 +157,86 @@ Section Text.
     end.
   Definition canon_text (vals : list value) : bytes := join_sp (map canon_value vals).
 End Text.
+
+(* ---- executable models of the two external charset decoders (used to instantiate [lossy]/[w1252] in the
+   correspondence check; the theorems above hold for arbitrary functions) *)
+
+(* UTF-8 encoding of a code point < 0x10000 *)
+Definition utf8_enc (cp : N) : bytes :=
+  if cp <? 128 then [cp]
+  else if cp <? 2048 then [192 + cp / 64; 128 + cp mod 64]
+  else [224 + cp / 4096; 128 + (cp / 64) mod 64; 128 + cp mod 64].
+
+(* WHATWG index windows-1252, bytes 0x80..0x9F (encoding_rs WINDOWS_1252; every byte is mapped) *)
+Definition w1252_hi : list N :=
+  [8364; 129; 8218; 402; 8222; 8230; 8224; 8225; 710; 8240; 352; 8249; 338; 141; 381; 143;
+   144; 8216; 8217; 8220; 8221; 8226; 8211; 8212; 732; 8482; 353; 8250; 339; 157; 382; 376].
+Definition w1252_cp (c : N) : N :=
+  if (c <? 128) || (160 <=? c) then c else nth (N.to_nat (c - 128)) w1252_hi 0.
+Definition w1252_model (s : bytes) : bytes := flat_map (fun c => utf8_enc (w1252_cp c)) s.
+
+(* String::from_utf8_lossy = core::str::Utf8Chunks: maximal valid prefix, then 1..3 bytes of an ill-formed
+   sequence replaced by one U+FFFD ("maximal subpart" rule) *)
+Definition is_cont (b : N) : bool := (128 <=? b) && (b <=? 191).
+Definition in_range (lo hi b : N) : bool := (lo <=? b) && (b <=? hi).
+Definition second3 (b0 b1 : N) : bool :=
+  if b0 =? 224 then in_range 160 191 b1
+  else if b0 =? 237 then in_range 128 159 b1
+  else in_range 128 191 b1.
+Definition second4 (b0 b1 : N) : bool :=
+  if b0 =? 240 then in_range 144 191 b1
+  else if b0 =? 244 then in_range 128 143 b1
+  else in_range 128 191 b1.
+(* (well-formed?, bytes consumed) for the sequence starting at the head of a non-empty [s] *)
+Definition utf8_step (s : bytes) : bool * nat :=
+  match s with
+  | [] => (true, 0%nat)
+  | b0 :: r =>
+      if b0 <? 128 then (true, 1%nat)
+      else if in_range 194 223 b0 then
+        match r with
+        | b1 :: _ => if is_cont b1 then (true, 2%nat) else (false, 1%nat)
+        | [] => (false, 1%nat)
+        end
+      else if in_range 224 239 b0 then
+        match r with
+        | b1 :: r2 =>
+            if second3 b0 b1 then
+              match r2 with
+              | b2 :: _ => if is_cont b2 then (true, 3%nat) else (false, 2%nat)
+              | [] => (false, 2%nat)
+              end
+            else (false, 1%nat)
+        | [] => (false, 1%nat)
+        end
+      else if in_range 240 244 b0 then
+        match r with
+        | b1 :: r2 =>
+            if second4 b0 b1 then
+              match r2 with
+              | b2 :: r3 =>
+                  if is_cont b2 then
+                    match r3 with
+                    | b3 :: _ => if is_cont b3 then (true, 4%nat) else (false, 3%nat)
+                    | [] => (false, 3%nat)
+                    end
+                  else (false, 2%nat)
+              | [] => (false, 2%nat)
+              end
+            else (false, 1%nat)
+        | [] => (false, 1%nat)
+        end
+      else (false, 1%nat)
+  end.
+Fixpoint lossy_aux (fuel : nat) (s : bytes) : bytes :=
+  match fuel with
+  | O => []
+  | S f =>
+      match s with
+      | [] => []
+      | _ =>
+          let (ok, n) := utf8_step s in
+          (if ok then firstn n s else [239; 191; 189]) ++ lossy_aux f (skipn n s)
+      end
+  end.
+Definition utf8_lossy_model (s : bytes) : bytes := lossy_aux (length s) s.
